@@ -8,7 +8,7 @@ THEOREMS = ["C11_first_match_wins", "C11_undefined_iff", "C11_argument_order", "
 ASSUMPTIONS = ["CPython frame objects (f_locals / f_globals of the frame k levels up) are modelled as a stack of "
                "(locals, globals) pairs; the correspondence builds real nested callers",
                "the built-in scope is exercised by temporarily adding entries to formulae.transforms.TRANSFORMS"]
-RULE = ("exhaustive: all 2^5 subsets of scopes defining the name x role (argument, callee, dotted callee, doubly dotted callee, "
+RULE = ("exhaustive: all 2^5 subsets of scopes defining the name x role (argument, callee, dotted callee, doubly and triply dotted callee with decoy siblings, "
         "backquoted argument, keyword-argument value, argument of a nested call) x env depth 0..3 (and one depth beyond the stack) through four nested callers "
         "with their own locals and globals; non-trivial = every case; distinct = case")
 EXHAUSTIVE = {"quick": True, "thorough": True}
@@ -22,7 +22,7 @@ VAL = {"data": 1.0, "builtin": 2.0, "extra": 5.0}
 def gen(rng, tier):
     cases = []
     # kwarg: the name is the VALUE of a keyword argument; nested: it is an argument of a call inside a call
-    for role in ("arg", "callee", "dotted", "dotted2", "bq", "kwarg", "nested"):
+    for role in ("arg", "callee", "dotted", "dotted2", "dotted3", "bq", "kwarg", "nested"):
         for r in range(0, 6):
             for subset in itertools.combinations(SCOPES, r):
                 if role == "bq" and "local" in subset:
@@ -51,7 +51,7 @@ def nontrivial(c, mo, obs):
 
 def _name(c):
     return {"arg": "nm", "callee": "nm", "dotted": "mod", "bq": "my nm", "arg-none": "nm", "kwarg": "nm",
-            "nested": "nm", "dotted2": "mod"}[c["role"]]
+            "nested": "nm", "dotted2": "mod", "dotted3": "mod"}[c["role"]]
 
 
 def expected(c):
@@ -59,7 +59,7 @@ def expected(c):
     if c["depth"] >= NFRAMES:
         return ["err", "Value"]
     order = ["data", "builtin", "local", "global", "extra"]
-    if c["role"] in ("callee", "dotted", "dotted2"):
+    if c["role"] in ("callee", "dotted", "dotted2", "dotted3"):
         order = order[1:]
     if c["role"] == "arg-none":
         # the first defining scope binds None: sel(x, None) returns x, whose first entry is 1.0
@@ -82,6 +82,10 @@ def model_cmd(c):
     def obj(v):
         if c["role"] == "dotted2":
             return ["mod", [["sub", ["mod", [["nm", ["m", str(v)]]]]]]]
+        if c["role"] == "dotted3":
+            # mod.sub.deep.nm is the callee; siblings one level up carry other values
+            return ["mod", [["sub", ["mod", [["deep", ["mod", [["nm", ["m", str(v)]]]]], ["nm", ["m", "-1.0"]]]]],
+                            ["deep", ["mod", [["nm", ["m", "-2.0"]]]]], ["nm", ["m", "-3.0"]]]]
         return ["mod", [["nm", ["m", str(v)]]]] if c["role"] == "dotted" else ["m", str(v)]
 
     data = [[name, obj(VAL["data"])]] if "data" in d else []
@@ -108,6 +112,8 @@ def model_cmd(c):
         data = []
     role = "arg" if c["role"] in ("arg", "bq", "arg-none", "kwarg", "nested") else "callee"
     path = {"dotted": ["mod", "nm"], "dotted2": ["mod", "sub", "nm"]}.get(c["role"], [name])
+    if c["role"] == "dotted3":
+        path = ["mod", "sub", "deep", "nm"]
     return core.sshow(["c11", role, str(c["depth"]), path, data, builtins, stack, extra])
 
 
@@ -134,13 +140,19 @@ def _run(c):
         fn = (lambda x, _v=float(v): x * 0 + _v)
         if role == "dotted2":
             return types.SimpleNamespace(sub=types.SimpleNamespace(nm=fn))
+        if role == "dotted3":
+            def const(k):
+                return lambda x: x * 0 + k
+            return types.SimpleNamespace(
+                sub=types.SimpleNamespace(deep=types.SimpleNamespace(nm=fn), nm=const(-1.0)),
+                deep=types.SimpleNamespace(nm=const(-2.0)), nm=const(-3.0))
         return types.SimpleNamespace(nm=fn) if role == "dotted" else fn
 
     cols = {"y": np.arange(n, dtype=float), "x": np.arange(n, dtype=float) + 1}
     if "data" in d:
         cols[name] = np.full(n, VAL["data"])
     df = pd.DataFrame(cols)
-    formula = {"arg": "y ~ I(nm)", "callee": "y ~ nm(x)", "dotted": "y ~ mod.nm(x)", "dotted2": "y ~ mod.sub.nm(x)", "bq": "y ~ I(`my nm`)",
+    formula = {"arg": "y ~ I(nm)", "callee": "y ~ nm(x)", "dotted": "y ~ mod.nm(x)", "dotted2": "y ~ mod.sub.nm(x)", "dotted3": "y ~ mod.sub.deep.nm(x)", "bq": "y ~ I(`my nm`)",
                "arg-none": "y ~ sel_(x, nm)", "kwarg": "y ~ keep_(x, w=nm)",
                "nested": "y ~ keep_(x, w=keep_(x, nm))"}[role]
     extra = {name: val(VAL["extra"], "extra")} if "extra" in d else None
